@@ -165,6 +165,17 @@ func (c *Client) Hello(localName string) error {
 	if err := validateLine(localName); err != nil {
 		return err
 	}
+	// The argument of EHLO/HELO is a single domain or address literal. An empty name leaves the
+	// command without its argument, white space or control characters in it would reach the server
+	// as additional arguments of the command.
+	if localName == "" {
+		return errors.New("smtp: the host name for EHLO/HELO must not be empty")
+	}
+	for i := 0; i < len(localName); i++ {
+		if localName[i] <= ' ' || localName[i] == 0x7f {
+			return errors.New("smtp: the host name for EHLO/HELO must not contain white space or control characters")
+		}
+	}
 	if c.didHello {
 		return errors.New("smtp: Hello called after other methods")
 	}
